@@ -115,7 +115,8 @@ ALLOC_SIZED = {
 def oprover(m, env, e, extra=()):
     def cf(f):
         return tuple(m.canon(x) if isinstance(x, tuple) and x and isinstance(x[0], str) else x for x in f)
-    facts = [cf(f) for f in env.event_facts(e)] + [cf(f) for f in extra]
+    from guards import derive_satsub
+    facts = derive_satsub([cf(f) for f in env.event_facts(e)] + [cf(f) for f in extra])
     pf = {}
     for k, v in env.ev.payload_facts.items():
         pf[m.canon(k)] = [cf(f) for f in v]
